@@ -8,6 +8,7 @@ import (
 	"fmt"
 	"net/http"
 	"net/http/httptest"
+	"strings"
 	"sync"
 	"time"
 
@@ -35,52 +36,156 @@ func newAdapterClient(proto string) (entryPoint, error) {
 	return &adapterClient{proto: proto, pf: rig.ProtocolFactory(proto), hook: installHook()}, nil
 }
 
-func (a *adapterClient) mode(idx int) string { return "stream" }
+// mode: the canary runs either on a new transport over a new connection, or -
+// the history "hostile bytes on session 1, transport closes, the SAME
+// FTransport is opened again, well-behaved peer on session 2" - on the
+// reopened transport: the damage must stay confined to the one connection.
+func (a *adapterClient) mode(idx int) string {
+	if idx%2 == 0 {
+		return "stream+reopen-same-transport"
+	}
+	return "stream"
+}
 
-// oneCall opens a new adapter transport on a scripted byte stream, makes the
-// generated call and feeds `feed` (then EOF if eof) when the request frame has
-// been flushed.
-func (a *adapterClient) oneCall(base int, opid uint64, feed [][]byte, eof bool) (frugal.FTransport, <-chan callResult, error) {
+// session is one adapter transport on a scripted byte stream.
+type session struct {
+	st *rig.ScriptTransport
+	tr frugal.FTransport
+	c  *mainsvc.FFooClient
+}
+
+func (a *adapterClient) newSession() (*session, error) {
 	st := rig.NewScriptTransport()
 	tr := frugal.NewAdapterTransport(st)
 	if err := tr.Open(); err != nil {
-		return nil, nil, err
+		return nil, err
 	}
+	return &session{st, tr, mainsvc.NewFFooClient(frugal.NewFServiceProvider(tr, a.pf))}, nil
+}
+
+// call makes the generated call and feeds `feed` (then EOF if eof) when the
+// request frame has been flushed; fed is closed once everything has been fed.
+func (s *session) call(base int, opid uint64, feed [][]byte, eof bool) (done <-chan callResult, fed <-chan struct{}) {
 	var once sync.Once
-	st.OnFrame = func([]byte) {
+	fedC := make(chan struct{})
+	s.st.OnFrame = func([]byte) {
 		once.Do(func() {
 			for _, f := range feed {
-				st.Feed(f)
+				s.st.Feed(f)
 			}
 			if eof {
-				st.FeedEOF()
+				s.st.FeedEOF()
 			}
+			close(fedC)
 		})
 	}
-	c := mainsvc.NewFFooClient(frugal.NewFServiceProvider(tr, a.pf))
-	done := make(chan callResult, 1)
+	d := make(chan callResult, 1)
 	go func() {
-		ok, err := clientOp(base, c, callCtx(opid))
-		done <- callResult{ok, err}
+		ok, err := clientOp(base, s.c, callCtx(opid))
+		d <- callResult{ok, err}
 	}()
-	return tr, done, nil
+	return d, fedC
+}
+
+// served makes a canary call on a session whose peer is well-behaved and
+// decides logically: the call returns the right value (ok); the transport
+// closes although the peer did nothing wrong; or the complete response has
+// been consumed, the reader is back waiting for more bytes and nothing was
+// dispatched (swallowed) - no clock involved in any of them.
+func (a *adapterClient) served(s *session, opid uint64, what string) outcome {
+	a.hook.drain()
+	closed := s.tr.Closed()
+	done, fed := s.call(0, opid, [][]byte{validFrame(roleResp, a.proto, bases(roleResp)[0], opid)}, false)
+	var res *callResult
+	dispatched := false
+	o := awaitCond(func() bool {
+		select {
+		case r := <-done:
+			res = &r
+			return true
+		default:
+		}
+		select {
+		case <-closed:
+			return true
+		default:
+		}
+		select {
+		case <-fed:
+		default:
+			return false
+		}
+		// order matters: the reader parks (under the stream's lock) only after
+		// it has dispatched what it read, so once it is seen idle the hook
+		// event of a dispatch is already there
+		if idle, _ := s.st.ReaderIdle(); !idle {
+			return false
+		}
+		for _, e := range a.hook.drain() {
+			if e.opid == opid {
+				dispatched = true
+			}
+		}
+		return true
+	}, nil)
+	if o.kind != "ok" {
+		if o.kind == "stall" {
+			o.note = "canary call on " + what + " never returned: " + o.note
+		}
+		return o
+	}
+	if res == nil && dispatched {
+		// the response reached the caller's channel: the call comes back
+		r, o := await(done, nil, "")
+		if o.kind != "ok" {
+			return o
+		}
+		res = &r
+	}
+	switch {
+	case res != nil && res.ok:
+		return okOutcome("")
+	case res != nil:
+		return outcome{"wrong", fmt.Sprintf("[%s-wrong-answer] canary call on %s: ok=%v err=%v", tag(what), what, res.ok, res.err)}
+	}
+	select {
+	case cause := <-closed:
+		return outcome{"wrong", fmt.Sprintf("[%s-closed] %s closed (cause: %v) although its peer only sent one well-formed response", tag(what), what, cause)}
+	default:
+	}
+	return outcome{"wrong", fmt.Sprintf("[%s-swallowed] the well-formed response on %s was consumed, the reader is waiting for more bytes, nothing was dispatched and nothing was closed or reported", tag(what), what)}
+}
+
+func tag(what string) string {
+	if strings.HasPrefix(what, "the reopened") {
+		return "reopen"
+	}
+	return "new-transport"
 }
 
 func (a *adapterClient) deliver(idx int, in input) outcome {
 	opid := opidFor(idx)
 	valid := validFrame(roleResp, a.proto, bases(roleResp)[in.Base], opid)
 	a.hook.drain()
-	tr, done, err := a.oneCall(in.Base, opid, [][]byte{in.Data, valid}, true)
+	s1, err := a.newSession()
 	if err != nil {
 		return outcome{"wrong", "open: " + err.Error()}
 	}
+	closed := s1.tr.Closed()
+	done, fed := s1.call(in.Base, opid, [][]byte{in.Data, valid}, true)
 	// the stream ends after the hostile bytes and the valid response: the read
 	// loop must come to an end and publish it on Closed()
-	cause, o := await(tr.Closed(), nil, adapterReadLoop)
+	cause, o := await(closed, nil, adapterReadLoop)
 	if o.kind != "ok" {
 		if o.kind == "stall" {
 			o.note = "adapter transport never reported the end of the stream on Closed(): " + o.note
 		}
+		return o
+	}
+	// the transport may close in the middle of the peer's writes: session 1 is
+	// over only when the peer has written everything (nothing of it may leak
+	// into the stream of a later session of the scripted connection)
+	if _, o := await(fed, nil, ""); o.kind != "ok" {
 		return o
 	}
 	how := "/clean-close"
@@ -93,6 +198,7 @@ func (a *adapterClient) deliver(idx int, in input) outcome {
 			dispatched = true
 		}
 	}
+	same := false
 	if dispatched {
 		// a frame reached the caller: the call must come back (value or error)
 		r, o := await(done, nil, "")
@@ -102,27 +208,33 @@ func (a *adapterClient) deliver(idx int, in input) outcome {
 			}
 			return o
 		}
-		if r.ok {
+		same = r.ok
+	}
+	if a.mode(idx) == "stream" {
+		if same {
 			return okOutcome("same-connection" + how)
 		}
-	}
-	// canary on a NEW connection
-	tr2, done2, err := a.oneCall(0, opid+500000, [][]byte{validFrame(roleResp, a.proto, bases(roleResp)[0], opid+500000)}, false)
-	if err != nil {
-		return outcome{"wrong", "open of a new transport: " + err.Error()}
-	}
-	r, o := await(done2, nil, "")
-	if o.kind != "ok" {
-		if o.kind == "stall" {
-			o.note = "canary call on a new adapter transport never returned: " + o.note
+		// canary on a NEW transport over a new connection
+		s2, err := a.newSession()
+		if err != nil {
+			return outcome{"wrong", "open of a new transport: " + err.Error()}
 		}
+		if o := a.served(s2, opid+500000, "a new adapter transport"); o.kind != "ok" {
+			return o
+		}
+		s2.tr.Close()
+		return okOutcome("new-connection" + how)
+	}
+	// session 2 of the SAME transport (what an FTransportMonitor does after an
+	// unclean close): new connection, well-behaved peer
+	if err := s1.tr.Open(); err != nil {
+		return outcome{"wrong", "[reopen-open] reopening the transport after its read loop closed it: " + err.Error()}
+	}
+	if o := a.served(s1, opid+500000, "the reopened transport (session 2, new connection)"); o.kind != "ok" {
 		return o
 	}
-	tr2.Close()
-	if !r.ok {
-		return outcome{"wrong", fmt.Sprintf("canary call on a new adapter transport: ok=%v err=%v", r.ok, r.err)}
-	}
-	return okOutcome("new-connection" + how)
+	s1.tr.Close()
+	return okOutcome("reopened-same-transport" + how)
 }
 
 const adapterReadLoop = "(*fAdapterTransport).readLoop"
